@@ -1,6 +1,81 @@
 import Driver.Util
-open Lean
+import DoitModel.Model.Sel
+open Lean DoitModel.Sel
 namespace Driver.Sel
-/-- handler for requests with `"model": "sel"` (stub: filled in when the model exists) -/
-def handle (_ : Json) : Json := Driver.err "model not implemented"
+/-! requests `{"model":"sel", "tasks":[{"name","task_dep","setup","calc_dep","file_dep","targets","has_subtask",
+      "params":[{"short":"f"|"","long":"flag"|"","val":bool}],"pos_arg","delayed","utd"}],
+      "args":[..], "default":null|[..], "single":bool, "obs":{"exit","processed","started","ran"}?}`
+    or `{"model":"sel","op":"glob","pattern":..,"names":[..]}`.
+    answer: `deps` (task_dep after `TaskControl.__init__`: `[name, expanded, final]`), `head` (= `spec` since dcfe778) and
+    `pinned` (before dcfe778) plans
+    (`sel`: `["ok",[..]] | ["notFound",a] | ["optErr"] | ["fuel"]`, `closure`, `closed`, `task_dep`), `reinit`, `pos`,
+    `pinned_single`, and `monitor` (failed clauses of the property on `obs`) when `obs` is given.
+    Sets are returned as lists in model order; the harness sorts. -/
+
+def toks (j : Json) (k : String) : List Tok := (jstrs j k).map String.toList
+def ofTok (t : Tok) : Json := Json.str (String.ofList t)
+def ofToks (ts : List Tok) : Json := mkArr (ts.map ofTok)
+
+def parseParam (j : Json) : Param :=
+  { short := (jstr j "short").toList.head?, long := (jstr j "long").toList, takesVal := jbool j "val" }
+
+def parseTask (j : Json) : Task :=
+  { name := (jstr j "name").toList, taskDep := toks j "task_dep", setup := toks j "setup", calcDep := toks j "calc_dep",
+    fileDep := toks j "file_dep", targets := toks j "targets", hasSubtask := jbool j "has_subtask",
+    params := (jarr j "params").map parseParam, posArg := jbool j "pos_arg", delayed := jbool j "delayed",
+    utd := jbool j "utd" }
+
+def selJson : Except Err (List Tok) → Json
+  | .ok l => mkArr [Json.str "ok", ofToks l]
+  | .error (.notFound a) => mkArr [Json.str "notFound", ofTok a]
+  | .error .optErr => mkArr [Json.str "optErr"]
+  | .error .fuel => mkArr [Json.str "fuel"]
+
+def planJson : Except Err Plan → Json
+  | .error e => Json.mkObj [("sel", selJson (.error e))]
+  | .ok p => Json.mkObj [
+      ("sel", selJson (.ok p.sel)),
+      ("closure", ofToks p.closure),
+      ("closed", Json.bool (closedB p.tasks p.closure)),
+      ("task_dep", mkArr (p.tasks.map fun t => mkArr [ofTok t.name, ofToks t.taskDep]))]
+
+def handle (j : Json) : Json :=
+  if jstr j "op" = "glob" then
+    let pat := (jstr j "pattern").toList
+    Json.mkObj [("match", mkArr ((toks j "names").map fun n => Json.bool (glob pat n)))]
+  else
+    let ts := (jarr j "tasks").map parseTask
+    let args := toks j "args"
+    let dflt : Option (List Tok) := match j.getObjVal? "default" with
+      | .ok (.arr a) => some (a.toList.map fun x => (asStr x).toList)
+      | _ => none
+    let single := jbool j "single"
+    let pts := prepare ts
+    let sa := selArgs args dflt
+    let reinit := match sa with
+      | none => false
+      | some a => reinitB pts (a.length + 1) [] a
+    let pos := match sa with
+      | none => []
+      | some a => pfPos pts (a.length + 1) [] a
+    let base : List (String × Json) := [
+      ("deps", mkArr (ts.map fun t => mkArr [ofTok t.name, ofToks (expandWild ts t), ofToks (finalDeps ts t)])),
+      ("head", planJson (planGen ts false args dflt single)),
+      ("pinned", planJson (planGen ts true args dflt single)),
+      ("spec", planJson (planGen ts false args dflt single)),
+      ("reinit", Json.bool reinit),
+      ("pos", mkArr (pos.map fun (n, vs) => mkArr [ofTok n, ofToks vs])),
+      ("pinned_single", selJson (pinnedSingleSelect pts sa))]
+    let mon : List (String × Json) :=
+      if jhas j "obs" then
+        let o := jobj j "obs"
+        let obs : Obs := { exit := jnat o "exit", processed := toks o "processed", started := toks o "started",
+                           ran := toks o "ran" }
+        let chunked := match planGen ts false args dflt single with
+          | .ok p => chunkedB p.tasks p.sel obs.started
+          | .error _ => true
+        [("monitor", ofStrs (monitor ts args dflt single obs)), ("chunked", Json.bool chunked)]
+      else []
+    Json.mkObj (base ++ mon)
+
 end Driver.Sel
